@@ -91,6 +91,12 @@ CHECKS = {
         text='Histories of rewrite / touch / create / request operations are applied to a long-lived Project (requests inside check_changes, as the server does); after every request the reply must equal that of a Project created at that moment. All histories up to length 3 (quick) / 4 (thorough) over a 13-symbol alphabet are enumerated; longer ones come from a rule-based state machine that shrinks whole sequences.',
         design_ref='DESIGN.md section 4 (C09)',
         note='One fixed import graph (diamond + late-created module) whose module contents are functions of toggles; modification times from a harness counter via os.utime; order inside alternative lists normalised (C17).'),
+    'C17': dict(
+        technique='property-based testing across processes: generated and corpus requests with multi-alternative answers replayed in fresh interpreters under different PYTHONHASHSEED values and heap layouts; byte-identical serialisation oracle',
+        category='exploration',
+        text='A pre-pass selects requests whose answer has several alternatives; each batch is answered twice in each of k fresh interpreters started with different hash seeds and different amounts of prior allocation; all serialised answers must be identical and alternative lists must be in source order. Order that depends on memory addresses or string hashing cannot be seen inside one test process; this check makes the process a generated input.',
+        design_ref='DESIGN.md section 4 (C17)',
+        note='k = 4 (quick) / 8 (thorough) processes; address-space layout is varied indirectly (prior allocation, ASLR), not controlled.'),
 }
 
 NOT_YET = 'check not built yet in this session (planned in DESIGN.md section 4); not claimed until its command exists'
